@@ -257,6 +257,7 @@ fn render_sync_snap(s: &SyncSnap<VKey, VVal>, now: u64, freqs: String) -> String
 pub enum Live {
     Unsync(Box<UCache<VKey, VVal, VBuildHasher>>, VerifClock),
     Sync(SCache<VKey, VVal, VBuildHasher>, VerifClock),
+    Facade(crate::facade::Facade),
 }
 
 pub fn build(cfg: &Cfg) -> Result<Live, String> {
@@ -306,6 +307,12 @@ pub fn build(cfg: &Cfg) -> Result<Live, String> {
             c.verif_set_clock(&clock);
             Ok(Live::Sync(c, clock))
         }
+        "sketch" => Ok(Live::Facade(crate::facade::Facade::Sketch(
+            mini_moka::verif::VerifSketch::new(),
+        ))),
+        "deque" => Ok(Live::Facade(crate::facade::Facade::Deque(
+            mini_moka::verif::VerifDeque::new(),
+        ))),
         k => Err(format!("bad kind {}", k)),
     }));
     match r {
@@ -575,6 +582,13 @@ pub fn run_file<R: BufRead, W: Write>(input: R, out: &mut W) {
                     }
                 }
             }
+            Some(Live::Facade(f)) => match crate::facade::exec(f, op) {
+                Ok(s) => s,
+                Err(e) => {
+                    dead = true;
+                    e
+                }
+            },
         };
         writeln!(out, "{} -> {}", op, res).unwrap();
         if dead {
